@@ -67,6 +67,22 @@ theorem bytes_iff (c : Cfg) (x : Ctx) (v : PyVal) (h : c.ptype = .bytes) :
   cases v <;> cases hn : c.allowNone <;> cases hr : c.regex <;> cases hx : x.rx <;>
     simp [bytesValue, regexCheck, NoneOk, PyVal.isNone, PyVal.isBytes, hn, hr, hx]
 
+@[simp] theorem ok_seq (b : R) : ((.ok () : R) ;; b) = b := rfl
+
+theorem numberStep_ok_iff (c : Cfg) : numberStep c = .ok () ↔ StepOfType (stepTypeOk c.ptype) c.step := by
+  unfold numberStep StepOfType
+  rcases c.step with _ | s
+  · simp
+  · cases stepTypeOk c.ptype s <;> simp
+
+/-- a well-formed Number-family declaration passes the step test -/
+theorem numberStep_of_wf (c : Cfg) (hwf : WF c)
+    (hp : c.ptype = .number ∨ c.ptype = .magnitude ∨ c.ptype = .integer ∨ c.ptype = .date ∨ c.ptype = .calendarDate) :
+    numberStep c = .ok () := by
+  rw [numberStep_ok_iff]
+  unfold WF at hwf
+  rcases hp with h | h | h | h | h <;> simp only [h] at hwf ⊢ <;> exact hwf
+
 theorem numberCore_iff (c : Cfg) (v : PyVal) :
     (numberValue c v ;; numberBounds c.allowNone c.bounds c.incl v) = .ok () ↔
       NoneOk c v ∨ DynamicOk v ∨ (v.isNumber = true ∧ InBounds c.bounds c.incl v) := by
@@ -74,32 +90,37 @@ theorem numberCore_iff (c : Cfg) (v : PyVal) :
   cases v <;> cases hn : c.allowNone <;>
     simp [numberValue, NoneOk, DynamicOk, PyVal.isNone, PyVal.isCallable, PyVal.isGenFn, PyVal.isNumber, hn]
 
-theorem number_iff (c : Cfg) (x : Ctx) (v : PyVal) (h : c.ptype = .number) :
+theorem number_iff (c : Cfg) (x : Ctx) (v : PyVal) (h : c.ptype = .number) (hwf : WF c) :
     validate c x v = .ok () ↔ Sat c x v := by
-  unfold validate Sat; simp only [h]; exact numberCore_iff c v
+  have hs := numberStep_of_wf c hwf (Or.inl h)
+  unfold validate Sat; simp only [h, hs, ok_seq]; exact numberCore_iff c v
 
-theorem magnitude_iff (c : Cfg) (x : Ctx) (v : PyVal) (h : c.ptype = .magnitude) :
+theorem magnitude_iff (c : Cfg) (x : Ctx) (v : PyVal) (h : c.ptype = .magnitude) (hwf : WF c) :
     validate c x v = .ok () ↔ Sat c x v := by
-  unfold validate Sat; simp only [h]; exact numberCore_iff c v
+  have hs := numberStep_of_wf c hwf (Or.inr (Or.inl h))
+  unfold validate Sat; simp only [h, hs, ok_seq]; exact numberCore_iff c v
 
-theorem integer_iff (c : Cfg) (x : Ctx) (v : PyVal) (h : c.ptype = .integer) :
+theorem integer_iff (c : Cfg) (x : Ctx) (v : PyVal) (h : c.ptype = .integer) (hwf : WF c) :
     validate c x v = .ok () ↔ Sat c x v := by
-  unfold validate Sat; simp only [h]
+  have hs := numberStep_of_wf c hwf (Or.inr (Or.inr (Or.inl h)))
+  unfold validate Sat; simp only [h, hs, ok_seq]
   rw [seq_ok_iff, numberBounds_ok_iff]
   cases v <;> cases hn : c.allowNone <;>
     simp_all [integerValue, NoneOk, DynamicOk, PyVal.isNone, PyVal.isCallable, PyVal.isGenFn, PyVal.isInt]
   all_goals (rename_i k _; cases k <;> simp)
 
-theorem date_iff (c : Cfg) (x : Ctx) (v : PyVal) (h : c.ptype = .date) :
+theorem date_iff (c : Cfg) (x : Ctx) (v : PyVal) (h : c.ptype = .date) (hwf : WF c) :
     validate c x v = .ok () ↔ Sat c x v := by
-  unfold validate Sat dateBounds; simp only [h]
+  have hs := numberStep_of_wf c hwf (Or.inr (Or.inr (Or.inr (Or.inl h))))
+  unfold validate Sat dateBounds; simp only [h, hs, ok_seq]
   rw [seq_ok_iff, numberBounds_ok_iff]
   cases v <;> cases hn : c.allowNone <;>
     simp [dateValue, NoneOk, PyVal.isNone, PyVal.isCallable, PyVal.isDt, PyVal.toDatetime, hn]
 
-theorem calendarDate_iff (c : Cfg) (x : Ctx) (v : PyVal) (h : c.ptype = .calendarDate) :
+theorem calendarDate_iff (c : Cfg) (x : Ctx) (v : PyVal) (h : c.ptype = .calendarDate) (hwf : WF c) :
     validate c x v = .ok () ↔ Sat c x v := by
-  unfold validate Sat; simp only [h]
+  have hs := numberStep_of_wf c hwf (Or.inr (Or.inr (Or.inr (Or.inr h))))
+  unfold validate Sat; simp only [h, hs, ok_seq]
   rw [seq_ok_iff, numberBounds_ok_iff]
   cases v <;> cases hn : c.allowNone <;>
     simp [calendarDateValue, NoneOk, PyVal.isNone, PyVal.isCallable, PyVal.isDt, PyVal.isDatetime, hn]
@@ -259,10 +280,12 @@ theorem isNone_of_isDt {v : PyVal} (h : v.isDt = true) : v.isNone = false := by
 theorem range_iff (c : Cfg) (x : Ctx) (v : PyVal) (h : c.ptype = .range) (hwf : WF c) :
     validate c x v = .ok () ↔ Sat c x v := by
   unfold WF at hwf; simp only [h] at hwf
-  obtain ⟨hlen, hbt, hs⟩ := hwf
+  obtain ⟨hlen, hbt, hsb, hs⟩ := hwf
+  have hsoft : softBoundTypes c = .ok () := by
+    unfold softBoundTypes; rw [boundTypes_ok_iff, h]; exact hsb
   have hbt' : boundTypes c.ptype c.bounds = .ok () := by
     rw [boundTypes_ok_iff, h]; exact hbt
-  unfold validate Sat; simp only [h, rangeValidate]
+  unfold validate Sat; simp only [h, rangeValidate, hsoft, ok_seq]
   cases v with
   | none =>
     cases hn : c.allowNone <;>
@@ -304,10 +327,12 @@ theorem range_iff (c : Cfg) (x : Ctx) (v : PyVal) (h : c.ptype = .range) (hwf : 
 theorem dateRange_iff (c : Cfg) (x : Ctx) (v : PyVal) (h : c.ptype = .dateRange) (hwf : WF c) :
     validate c x v = .ok () ↔ Sat c x v := by
   unfold WF at hwf; simp only [h] at hwf
-  obtain ⟨hlen, hbt, hs⟩ := hwf
+  obtain ⟨hlen, hbt, hsb, hs⟩ := hwf
+  have hsoft : softBoundTypes c = .ok () := by
+    unfold softBoundTypes; rw [boundTypes_ok_iff, h]; exact hsb
   have hbt' : boundTypes c.ptype (mapBounds PyVal.toDatetime c.bounds) = .ok () := by
     rw [boundTypes_ok_iff, h]; exact (boundsOfType_toDatetime c.bounds).2 hbt
-  unfold validate Sat; simp only [h, rangeValidate]
+  unfold validate Sat; simp only [h, rangeValidate, hsoft, ok_seq]
   cases v with
   | none =>
     cases hn : c.allowNone <;>
@@ -350,10 +375,12 @@ theorem calendarDateRange_iff (c : Cfg) (x : Ctx) (v : PyVal) (h : c.ptype = .ca
     (hwf : WF c) :
     validate c x v = .ok () ↔ Sat c x v := by
   unfold WF at hwf; simp only [h] at hwf
-  obtain ⟨hlen, hbt, hs⟩ := hwf
+  obtain ⟨hlen, hbt, hsb, hs⟩ := hwf
+  have hsoft : softBoundTypes c = .ok () := by
+    unfold softBoundTypes; rw [boundTypes_ok_iff, h]; exact hsb
   have hbt' : boundTypes c.ptype (mapBounds id c.bounds) = .ok () := by
     rw [boundTypes_ok_iff, h, mapBounds_id]; exact hbt
-  unfold validate Sat; simp only [h, rangeValidate]
+  unfold validate Sat; simp only [h, rangeValidate, hsoft, ok_seq]
   cases v with
   | none =>
     cases hn : c.allowNone <;>
@@ -575,6 +602,7 @@ theorem noOther_classSelectorValidate (c : Cfg) (x : Ctx) (v : PyVal) : NoOther 
 theorem noOther_colorValue (c : Cfg) (v : PyVal) : NoOther (colorValue c v) := by unfold colorValue; no_other
 theorem noOther_colorNamed (c : Cfg) (v : PyVal) : NoOther (colorNamed c v) := by unfold colorNamed; no_other
 theorem noOther_rangeStep (c : Cfg) : NoOther (rangeStep c) := by unfold rangeStep; no_other
+theorem noOther_numberStep (c : Cfg) : NoOther (numberStep c) := by unfold numberStep; no_other
 theorem noOther_boundTypes (t : PType) (b : Bounds) : NoOther (boundTypes t b) := by
   unfold boundTypes
   rcases b with _ | ⟨lo, hi⟩
@@ -646,9 +674,10 @@ theorem tupleLength_tuple_ok (c : Cfg) (xs : List PyVal) (hlen : c.length = 2)
 /-- tail of `Range._validate` after the value test, on `None` or a tuple -/
 theorem noOther_rangeTail (c : Cfg) (bounds : R) (v : PyVal) (hlen : c.length = 2)
     (hb : NoOther bounds) (hv : v.isNone = true ∨ v.isTuple = true) :
-    NoOther (tupleLength c v ;; bounds ;; rangeStep c ;; rangeOrder c v) := by
+    NoOther (tupleLength c v ;; bounds ;; softBoundTypes c ;; rangeStep c ;; rangeOrder c v) := by
   refine noOther_seq (noOther_tupleLength c v) (fun hl => ?_)
   refine noOther_seq hb (fun _ => ?_)
+  refine noOther_seq (noOther_boundTypes _ _) (fun _ => ?_)
   refine noOther_seq (noOther_rangeStep c) (fun _ => ?_)
   cases v with
   | none => exact noOther_rangeOrder_none c
@@ -658,14 +687,15 @@ theorem noOther_rangeTail (c : Cfg) (bounds : R) (v : PyVal) (hlen : c.length = 
   | _ => simp [PyVal.isNone, PyVal.isTuple] at hv
 
 /-- on a number, the Number family tests nothing but the bounds -/
-theorem numberLike_iff (c : Cfg) (x : Ctx) (k : NumKind) (q : ExtRat) (h : NumberLike c (.num k q)) :
+theorem numberLike_iff (c : Cfg) (x : Ctx) (k : NumKind) (q : ExtRat) (h : NumberLike c (.num k q))
+    (hwf : WF c) :
     validate c x (.num k q) = .ok () ↔ InBounds c.bounds c.incl (.num k q) := by
   rcases h with h | h | ⟨h, hint⟩
-  · rw [number_iff c x _ h]; unfold Sat
+  · rw [number_iff c x _ h hwf]; unfold Sat
     simp [h, NoneOk, DynamicOk, PyVal.isNone, PyVal.isCallable, PyVal.isNumber]
-  · rw [magnitude_iff c x _ h]; unfold Sat
+  · rw [magnitude_iff c x _ h hwf]; unfold Sat
     simp [h, NoneOk, DynamicOk, PyVal.isNone, PyVal.isCallable, PyVal.isNumber]
-  · rw [integer_iff c x _ h]; unfold Sat
+  · rw [integer_iff c x _ h hwf]; unfold Sat
     simp [h, NoneOk, DynamicOk, PyVal.isNone, PyVal.isCallable, hint]
 
 /-! ### NaN -/
@@ -879,10 +909,6 @@ theorem range_bad_length_default (c : Cfg) (x : Ctx) (xs : List PyVal)
     · have hv := h.1
       cases hn : c.allowNone <;> simp [calendarDateRangeValue, unpack2, PyVal.isNone, hn] at hv
 
-theorem wf_of_not_range (c : Cfg)
-    (h : c.ptype ≠ .range ∧ c.ptype ≠ .dateRange ∧ c.ptype ≠ .calendarDateRange) : WF c := by
-  unfold WF; cases hp : c.ptype <;> simp_all
-
 /-- a non-tuple value never passes a Range flavour (unless it is an allowed `None`) -/
 theorem range_non_tuple (c : Cfg) (x : Ctx) (v : PyVal)
     (hp : c.ptype = .range ∨ c.ptype = .dateRange ∨ c.ptype = .calendarDateRange)
@@ -895,103 +921,119 @@ theorem range_non_tuple (c : Cfg) (x : Ctx) (v : PyVal)
   · cases v <;> cases hn' : c.allowNone <;> simp_all [dateRangeValue, PyVal.isNone, PyVal.isTuple]
   · cases v <;> cases hn' : c.allowNone <;> simp_all [calendarDateRangeValue, PyVal.isNone, PyVal.isTuple]
 
-/-- An ill-formed Range declaration does not survive its constructor: wrong bound types and a
-zero / non-numeric step make every `_validate` call raise, and a `length` other than 2 can only
-come from a default of that length, which the validator refuses. -/
+/-- the checks of `_validate` that do not look at the value: whenever some value passes, the
+declaration is well-formed up to the `length` slot -/
+theorem wf_mod_length_of_ok (c : Cfg) (x : Ctx) (v : PyVal) (h : validate c x v = .ok ()) :
+    WF { c with length := 2 } := by
+  unfold validate at h
+  unfold WF
+  cases hp : c.ptype <;> simp only [hp] at h ⊢ <;> try trivial
+  case number => simp only [seq_ok_iff] at h; have := (numberStep_ok_iff c).1 h.2.1; rw [hp] at this; exact this
+  case magnitude => simp only [seq_ok_iff] at h; have := (numberStep_ok_iff c).1 h.2.1; rw [hp] at this; exact this
+  case integer => simp only [seq_ok_iff] at h; have := (numberStep_ok_iff c).1 h.2.1; rw [hp] at this; exact this
+  case date => simp only [seq_ok_iff] at h; have := (numberStep_ok_iff c).1 h.2.1; rw [hp] at this; exact this
+  case calendarDate => simp only [seq_ok_iff] at h; have := (numberStep_ok_iff c).1 h.2.1; rw [hp] at this; exact this
+  case range =>
+    simp only [rangeValidate, seq_ok_iff, rangeBounds, softBoundTypes] at h
+    refine ⟨trivial, ?_, ?_, (rangeStep_ok_iff c).1 h.2.2.2.2.1⟩
+    · have := (boundTypes_ok_iff _ _).1 h.2.2.1.1; rw [hp] at this; exact this
+    · have := (boundTypes_ok_iff _ _).1 h.2.2.2.1; rw [hp] at this; exact this
+  case dateRange =>
+    simp only [rangeValidate, seq_ok_iff, dateRangeBounds, rangeBounds, softBoundTypes] at h
+    refine ⟨trivial, ?_, ?_, (rangeStep_ok_iff c).1 h.2.2.2.2.1⟩
+    · have := (boundTypes_ok_iff _ _).1 h.2.2.1.1; rw [hp] at this
+      exact (boundsOfType_toDatetime c.bounds).1 this
+    · have := (boundTypes_ok_iff _ _).1 h.2.2.2.1; rw [hp] at this; exact this
+  case calendarDateRange =>
+    simp only [rangeValidate, seq_ok_iff, rangeBounds, softBoundTypes] at h
+    refine ⟨trivial, ?_, ?_, (rangeStep_ok_iff c).1 h.2.2.2.2.1⟩
+    · have := (boundTypes_ok_iff _ _).1 h.2.2.1.1; rw [hp] at this; exact this
+    · have := (boundTypes_ok_iff _ _).1 h.2.2.2.1; rw [hp] at this; exact this
+
+/-- … so what is left of an ill-formed declaration whose value-independent checks pass is a
+Range flavour with a `length` other than 2 -/
+theorem bad_length_of_not_wf (c : Cfg) (h1 : ¬ WF c) (h2 : WF { c with length := 2 }) :
+    (c.ptype = .range ∨ c.ptype = .dateRange ∨ c.ptype = .calendarDateRange) ∧ c.length ≠ 2 := by
+  unfold WF at h1 h2
+  cases hp : c.ptype <;> simp only [hp] at h1 h2 <;> first
+    | exact absurd h2 h1
+    | exact ⟨by simp, fun hl => h1 ⟨hl, h2.2⟩⟩
+
+/-- An ill-formed declaration does not survive its constructor: a `step` or bounds of the wrong
+type make every `_validate` call raise, and a Range `length` other than 2 can only come from a
+default of that length, which the validator refuses. -/
 theorem ctorValidate_not_wf (a : Args) (c : Cfg) (d : PyVal) (x : Ctx)
     (hmk : mkCfg a = .ok (c, d)) (hwf : ¬ WF c) : ctorValidate c x d ≠ .ok () := by
-  obtain ⟨hd, hshape⟩ := mkCfg_ok_shape a c d hmk
-  have hrange : c.ptype = .range ∨ c.ptype = .dateRange ∨ c.ptype = .calendarDateRange := by
-    by_cases h1 : c.ptype = .range
-    · exact Or.inl h1
-    · by_cases h2 : c.ptype = .dateRange
-      · exact Or.inr (Or.inl h2)
-      · by_cases h3 : c.ptype = .calendarDateRange
-        · exact Or.inr (Or.inr h3)
-        · exact absurd (wf_of_not_range c ⟨h1, h2, h3⟩) hwf
+  have hnsel : c.ptype ≠ .selector ∧ c.ptype ≠ .listSelector := by
+    constructor <;> intro hp <;> exact hwf (by unfold WF; simp [hp])
   have hcv : ctorValidate c x d = validate c x d := by
-    unfold ctorValidate; rcases hrange with h | h | h <;> simp [h]
+    unfold ctorValidate; cases hp : c.ptype <;> simp_all
   rw [hcv]
+  intro hok
+  obtain ⟨hrange, hlen2⟩ := bad_length_of_not_wf c hwf (wf_mod_length_of_ok c x d hok)
+  obtain ⟨hd, hshape⟩ := mkCfg_ok_shape a c d hmk
   rcases hshape with ⟨hnt, hc⟩ | ⟨_, n, hm, hc⟩
-  · exfalso
-    have hpt : c.ptype = a.ptype := by rw [hc]; rfl
+  · have hpt : c.ptype = a.ptype := by rw [hc]; rfl
     rw [hpt] at hrange
     rcases hrange with h | h | h <;> simp [h, isTupleFamily] at hnt
   · have hpt : c.ptype = a.ptype := by rw [hc]; rfl
     have hlen : c.length = n := by rw [hc]
-    by_cases hs : StepWF c.step
-    · by_cases hb : BoundsOfType PyVal.isDt c.bounds ∨ c.ptype = .range
-      · -- the bound types and the step are fine: the length is not 2
-        by_cases hbn : c.ptype = .range → BoundsOfType PyVal.isNumber c.bounds
-        · have hn2 : n ≠ 2 := by
-            intro h2
-            apply hwf
-            unfold WF
-            rcases hrange with h | h | h <;> simp only [h] <;> refine ⟨by rw [hlen, h2], ?_, hs⟩
-            · exact hbn h
-            · rcases hb with hb | hb
-              · exact hb
-              · rw [h] at hb; cases hb
-            · rcases hb with hb | hb
-              · exact hb
-              · rw [h] at hb; cases hb
-          -- so it came from a non-empty default of that length
-          have hla : lengthArg a = some 2 := by
-            unfold lengthArg; rw [← hpt]; rcases hrange with h | h | h <;> simp [h]
-          unfold modelLength at hm
-          rw [hla] at hm
-          by_cases hdef : (a.default.isSome && truthy (ctorDefault a)) = true
-          · simp only [hdef, if_true] at hm
-            simp only [Bool.and_eq_true] at hdef
-            rw [← hd] at hm hdef
-            cases d with
-            | tuple xs =>
-              have hne : xs ≠ [] := by rintro rfl; simp [truthy] at hdef
-              have hl : xs.length = c.length := by
-                simp [len?] at hm; rw [hlen]; exact hm
-              exact range_bad_length_default c x xs hrange hne hl (by rw [hlen]; exact hn2)
-            | none => simp [truthy] at hdef
-            | _ => exact range_non_tuple c x _ hrange rfl rfl
-          · simp only [hdef, Bool.false_eq_true, if_false, Option.some.injEq] at hm
-            exact absurd hm.symm hn2
-        · -- a Range with a non-numeric bound
-          intro h
-          have hr : c.ptype = .range := by
-            by_cases hr : c.ptype = .range
-            · exact hr
-            · exact absurd (fun h' => absurd h' hr) hbn
-          unfold validate at h
-          simp only [hr, rangeValidate, seq_ok_iff, rangeBounds] at h
-          have := (boundTypes_ok_iff _ _).1 h.2.2.1.1
-          exact hbn (fun _ => this)
-      · -- a date flavour with a bound that is not a date
-        intro h
-        have hnr : c.ptype ≠ .range := fun h' => hb (Or.inr h')
-        have hnb : ¬ BoundsOfType PyVal.isDt c.bounds := fun h' => hb (Or.inl h')
-        unfold validate at h
-        rcases hrange with hr | hr | hr
-        · exact hnr hr
-        · simp only [hr, rangeValidate, seq_ok_iff, dateRangeBounds, rangeBounds] at h
-          have := (boundTypes_ok_iff _ _).1 h.2.2.1.1
-          exact hnb ((boundsOfType_toDatetime c.bounds).1 this)
-        · simp only [hr, rangeValidate, seq_ok_iff, rangeBounds] at h
-          have := (boundTypes_ok_iff _ _).1 h.2.2.1.1
-          exact hnb this
-    · intro h
-      unfold validate at h
-      rcases hrange with hr | hr | hr <;> simp only [hr, rangeValidate, seq_ok_iff] at h <;>
-        exact hs ((rangeStep_ok_iff c).1 h.2.2.2.1)
+    have hn2 : n ≠ 2 := by rw [← hlen]; exact hlen2
+    have hla : lengthArg a = some 2 := by
+      unfold lengthArg; rw [← hpt]; rcases hrange with h | h | h <;> simp [h]
+    unfold modelLength at hm
+    rw [hla] at hm
+    by_cases hdef : (a.default.isSome && truthy (ctorDefault a)) = true
+    · simp only [hdef, if_true] at hm
+      simp only [Bool.and_eq_true] at hdef
+      rw [← hd] at hm hdef
+      cases d with
+      | tuple xs =>
+        have hne : xs ≠ [] := by rintro rfl; simp [truthy] at hdef
+        have hl : xs.length = c.length := by
+          simp [len?] at hm; rw [hlen]; exact hm
+        exact range_bad_length_default c x xs hrange hne hl hlen2 hok
+      | none => simp [truthy] at hdef
+      | _ => exact range_non_tuple c x _ hrange rfl rfl hok
+    · simp only [hdef, Bool.false_eq_true, if_false, Option.some.injEq] at hm
+      exact absurd hm.symm hn2
 
 /-! ### routes -/
 
-/-- once the value that reaches the setter is known, the outcome is "validate, then store" -/
-theorem assign_cases (r : Route) (c : Cfg) (x : Ctx) (v w : PyVal) (h : routeValue r c v = some w) :
-    (validate c x w = .ok () ∧ assign r c x v = .stored r.target (storedValue c w)) ∨
-    (∃ e, validate c x w = .error e ∧ assign r c x v = .rejected e) := by
-  unfold assign
+theorem guard_err_kind (c : Cfg) (s : Situation) (e : ErrKind) (h : guard c s = .error e) : e = .typeError := by
+  unfold guard at h
+  split at h
+  · simp [typeErr] at h; exact h.symm
+  · split at h
+    · split at h
+      · simp [typeErr] at h; exact h.symm
+      · simp [ok] at h
+    · simp [ok] at h
+
+theorem guard_ok_iff (c : Cfg) (s : Situation) : guard c s = .ok () ↔ GuardOk c s := by
+  unfold guard GuardOk
+  cases hr : c.readonly <;> cases hc : c.constant <;> simp
+  cases s with
+  | initialised b => cases b <;> simp
+  | _ => simp
+
+/-- once the value that reaches the setter is known, the outcome is "hook, validate, guard, store" -/
+theorem assign_cases (r : Route) (c : Cfg) (x : Ctx) (same : Bool) (v w : PyVal)
+    (h : routeValue r c v = some w) :
+    (validate c x (setterValue c w) = .ok () ∧ guard c (r.situation same) = .ok () ∧
+      assign r c x same v = .stored r.target (storedValue c (setterValue c w))) ∨
+    (∃ e, validate c x (setterValue c w) = .error e ∧ assign r c x same v = .rejected e) ∨
+    (validate c x (setterValue c w) = .ok () ∧ guard c (r.situation same) = .error .typeError ∧
+      assign r c x same v = .rejected .typeError) := by
+  unfold assign setter
   rw [h]
-  rcases hv : validate c x w with e | u
-  · exact Or.inr ⟨e, rfl, by simp [hv]⟩
-  · cases u; exact Or.inl ⟨rfl, by simp [hv]⟩
+  rcases hv : validate c x (setterValue c w) with e | u
+  · exact Or.inr (Or.inl ⟨e, rfl, by simp [hv]⟩)
+  · cases u
+    rcases hg : guard c (r.situation same) with e | u
+    · have := guard_err_kind c _ e hg
+      subst this
+      exact Or.inr (Or.inr ⟨rfl, rfl, by simp [hv, hg]⟩)
+    · cases u; exact Or.inl ⟨rfl, rfl, by simp [hv, hg]⟩
 
 end ParamVerif.Validate
